@@ -183,11 +183,28 @@ def history_config(r, hooks=(), big=False):
         if lim:
             cc.append(['StepSizeLimiter', lim])
     cfg['cc'] = cc
+    # continuation legs on the same controller (each leg continues from the returned value and the time reached)
+    if kind != 'many' and r.random() < 0.3 and nsteps >= 2:
+        fr = sorted(r.random() for _ in range(r.choice([1, 1, 2])))
+        cfg['run']['legs'] = [t0 + f * (Tend - t0) for f in fr]
+    plugins = ['MonFirst', 'Inj89']
+    force = []
+    if P > 1 and r.random() < 0.25:
+        # forced stops (as the iteration estimator or the non-convergence path of adaptivity issue them)
+        plugins.append('InjVerdict')
+        for _ in range(r.randint(1, 4)):
+            force.append([r.randrange(maxb), r.randrange(1, P), r.randint(0, K), 'done'])
+        seenf, uniq = set(), []
+        for f in force:
+            if tuple(f[:3]) not in seenf:
+                seenf.add(tuple(f[:3]))
+                uniq.append(f)
+        force = uniq
     return {
         'engine': 'blocksim',
         'config': cfg,
-        'plugins': ['MonFirst', 'Inj89'],
-        'faults': {'restarts': restarts, 'dtnew': dtnew},
+        'plugins': plugins,
+        'faults': {'restarts': restarts, 'dtnew': dtnew, 'force': force},
         'max_events': 150000,
         'axis_kind': kind,
     }
@@ -203,7 +220,12 @@ def shrink_history(sc):
             s2 = copy.deepcopy(sc)
             del s2['faults']['estimates']['excursions'][i]
             yield s2
-    for key in ('restarts', 'dtnew', 'soft'):
+    if cfg['run'].get('legs'):
+        for i in range(len(cfg['run']['legs'])):
+            s2 = copy.deepcopy(sc)
+            del s2['config']['run']['legs'][i]
+            yield s2
+    for key in ('restarts', 'dtnew', 'soft', 'force'):
         lst = f.get(key, [])
         if len(lst) > 4:
             for half in (lst[: len(lst) // 2], lst[len(lst) // 2 :]):
@@ -234,6 +256,8 @@ def shrink_history(sc):
     if run['t0'] != 0.0:
         s2 = copy.deepcopy(sc)
         s2['config']['run'] = {'t0': 0.0, 'Tend': span, 'u0': run['u0']}
+        if run.get('legs'):
+            s2['config']['run']['legs'] = [x - run['t0'] for x in run['legs']]
         yield s2
     if P > 1:
         for newP in (1, P - 1):
